@@ -59,7 +59,7 @@ impl<'ast> Visit<'ast> for AllArms {
         syn::visit::visit_arm(self, a);
     }
 }
-fn arms(b: &syn::Block) -> Vec<syn::Arm> {
+pub(super) fn arms(b: &syn::Block) -> Vec<syn::Arm> {
     let mut v = AllArms(vec![]);
     v.visit_block(b);
     v.0
@@ -94,12 +94,12 @@ fn partial_indexes(b: &syn::Block) -> usize {
     f.found.iter().filter(|ix| toks(&ix.index) != "..").count()
 }
 
-fn sites_def(s: &mut String, name: &str, v: &[String]) {
+pub(super) fn sites_def(s: &mut String, name: &str, v: &[String]) {
     s.push_str(&format!("def {name} : List String := {}\n", lean_strs(v)));
 }
 
 /// `true` on `yes`, `false` on `no`, UNTRANSLATABLE otherwise
-fn flag(body: &str, yes: &[&str], no: &[&str], what: &str) -> Result<bool, String> {
+pub(super) fn flag(body: &str, yes: &[&str], no: &[&str], what: &str) -> Result<bool, String> {
     let y = yes.iter().all(|p| body.contains(p));
     let n = no.iter().all(|p| body.contains(p));
     match (y, n) {
@@ -428,6 +428,12 @@ pub fn generate(repo: &PathBuf, s: &mut String) -> Result<(), String> {
             return Err("Network::new_custom: unrecognised body".into());
         };
         s.push_str(&format!("def newCustomChecked : Bool := {}\n", lean_bool(new_custom_checked)));
+        // the other public door to `CustomNetwork::new`: utils.rs `get_evm_network` (wasm bindings)
+        let gfile = parse_file(&repo.join("evmlib/src/utils.rs"))?;
+        let g = free_fn(&gfile, "get_evm_network")?;
+        let get_checked = flag(&toks(&g.block), &["CustomNetwork::try_new("], &["Network::Custom(CustomNetwork::new(rpc_url,payment_token_address,data_payments_address,))"], "get_evm_network")?;
+        s.push_str(&format!("/-- evmlib/src/utils.rs `get_evm_network` goes through the fallible `try_new` (false: through the `expect`ing `CustomNetwork::new`, like `new_custom`) -/\ndef getEvmNetworkChecked : Bool := {}\n", lean_bool(get_checked)));
+        sites_def(s, "getEvmNetworkSites", &sites(&g.block, &no_env, false, false));
     }
     // --- nat-detection, ant-metrics
     {
